@@ -89,6 +89,87 @@ type c10S5 struct {
 	L []int
 }
 
+// explicit tags around optional, defaulted, Flag and RawValue fields (the shapes of a
+// certificate's version and extensions). The fork's and upstream's RawValue / Flag are distinct
+// types, so each shape has a mirror declared over upstream's.
+type c10S6 struct {
+	V int `asn1:"optional,explicit,default:0,tag:0"`
+	R RawValue
+}
+type c10S6std struct {
+	V int `asn1:"optional,explicit,default:0,tag:0"`
+	R stdasn1.RawValue
+}
+
+type c10S7 struct {
+	F Flag `asn1:"explicit,tag:0"`
+}
+type c10S7std struct {
+	F stdasn1.Flag `asn1:"explicit,tag:0"`
+}
+
+type c10S8 struct {
+	A int      `asn1:"optional,explicit,tag:1"`
+	R RawValue `asn1:"optional,explicit,tag:2"`
+}
+type c10S8std struct {
+	A int              `asn1:"optional,explicit,tag:1"`
+	R stdasn1.RawValue `asn1:"optional,explicit,tag:2"`
+}
+
+func c10SameRaw(a RawValue, b stdasn1.RawValue) bool {
+	return a.Class == b.Class && a.Tag == b.Tag && a.IsCompound == b.IsCompound && bytes.Equal(a.Bytes, b.Bytes) && bytes.Equal(a.FullBytes, b.FullBytes)
+}
+
+// c10Diff2: fork (strict, then lax) vs upstream on the same symbolic input, for a shape and its mirror.
+func c10Diff2[F, S any](n int, same func(F, S) bool, sameF func(F, F) bool) {
+	b := vBytes("der", n)
+	// D1 (documented difference, see Harness_C10_base128): the fork's base-128 reader accepts a
+	// leading 0x80 octet in a high tag number; a raw-value target accepts any tag, so such inputs
+	// are set aside here (any position that could be such a header: an over-approximation)
+	for i := 0; i+1 < n; i++ {
+		if vByDesign("D1-base128-leading-0x80", b[i]&0x1f == 0x1f && b[i+1] == 0x80) {
+			return
+		}
+	}
+	var f, l F
+	var s S
+	frest, ferr := Unmarshal(b, &f)
+	srest, serr := stdasn1.Unmarshal(b, &s)
+	vAssert((ferr == nil) == (serr == nil), "strict fork accepts exactly what upstream accepts")
+	if ferr != nil || serr != nil {
+		vReach("rejected")
+		UnmarshalWithParams(b, &l, "lax")
+		return
+	}
+	vReach("accepted")
+	vAssert(len(frest) == len(srest), "same unconsumed remainder as upstream")
+	vAssert(same(f, s), "same value as upstream")
+	lrest, lerr := UnmarshalWithParams(b, &l, "lax")
+	vAssert(lerr == nil && len(lrest) == len(frest) && sameF(l, f), "lax accepts whatever strict accepts, with the identical value and remainder")
+}
+
+//verif:opt maxpaths=30000 reach=accepted,rejected
+func Harness_C10_um_s6() {
+	c10Diff2[c10S6, c10S6std](2+vChoice("len", 6+2*vTier()),
+		func(f c10S6, s c10S6std) bool { return f.V == s.V && c10SameRaw(f.R, s.R) },
+		func(a, b c10S6) bool { return reflect.DeepEqual(a, b) })
+}
+
+//verif:opt maxpaths=30000 reach=accepted,rejected
+func Harness_C10_um_s7() {
+	c10Diff2[c10S7, c10S7std](2+vChoice("len", 5),
+		func(f c10S7, s c10S7std) bool { return bool(f.F) == bool(s.F) },
+		func(a, b c10S7) bool { return a == b })
+}
+
+//verif:opt maxpaths=30000 reach=accepted,rejected
+func Harness_C10_um_s8() {
+	c10Diff2[c10S8, c10S8std](2+vChoice("len", 6+2*vTier()),
+		func(f c10S8, s c10S8std) bool { return f.A == s.A && c10SameRaw(f.R, s.R) },
+		func(a, b c10S8) bool { return reflect.DeepEqual(a, b) })
+}
+
 //verif:opt maxpaths=30000 reach=accepted,rejected
 func Harness_C10_um_int() { c10Diff[int](1 + vChoice("len", 6+3*vTier()), true) }
 
